@@ -144,6 +144,31 @@ def _xkey(T):
     return z3.If(T.tag == 3, -1, z3.If(T.tag == 2, 1, 0))
 
 
+_UNIQ = {}
+
+
+def _unique_real(B):
+    """z3 rational constant when the path condition forces the exact value B to be finite and equal to it, else None"""
+    try:
+        s = EX._inc_solver()
+        s.push()
+        try:
+            if str(s.check()) != 'sat':
+                return None
+            m = s.model()
+            if not z3.is_true(m.eval(B.tag == 0, model_completion=True)):
+                return None
+            v = m.eval(B.val, model_completion=True)
+            if not z3.is_rational_value(v) or v.numerator_as_long() == 0:
+                return None
+            s.add(z3.Or(B.tag != 0, B.val != v))
+            return v if str(s.check()) == 'unsat' else None
+        finally:
+            s.pop()
+    except Exception:      # noqa
+        return None
+
+
 def xbin(op, a, b):
     A, B = xlift(a), xlift(b)
     fin = z3.And(A.tag == 0, B.tag == 0)
@@ -167,6 +192,13 @@ def xbin(op, a, b):
         if isinstance(b, Sym):
             if not REALS['div']:
                 raise Unsupported('exact domain: division by a symbolic value')
+            # a divisor that the path condition forces to one finite non-zero value (e.g. max_cost - min_cost of a volume whose
+            # extreme cells are pinned) is that constant: keeps the arithmetic linear
+            key = ('div', B.tag.get_id(), B.val.get_id())
+            if key not in _UNIQ:
+                _UNIQ[key] = _unique_real(B)
+            if _UNIQ[key] is not None:
+                return xbin('mul', a, Sym(X(z3.IntVal(0), z3.RealVal(1) / _UNIQ[key]), 'x4'))
             # reals-for-floats mode (declared assumption of the harness): rational division; a zero divisor raises in numba
             # kernels (obligation) and gives NaN / +-inf in vectorised numpy code
             if MODE['numba']:
@@ -405,6 +437,10 @@ def binop(op, a, b):
                  'min': z3.And, 'max': z3.Or}[op]
             return mkbool(f(ta, tb))
         k = 'i8'
+    if k in FSORT and MODE['exact'] and ka not in FSORT and kb not in FSORT or \
+            (k in FSORT and MODE['exact'] and not (isinstance(a, Sym) and a.k in FSORT) and not (isinstance(b, Sym) and b.k in FSORT)):
+        # exact mode: a float result computed from integers / concrete floats stays exact
+        return xbin(op, Sym(xlift(a), 'x4') if isinstance(a, Sym) else a, Sym(xlift(b), 'x4') if isinstance(b, Sym) else b)
     ta, tb = lift(a, k), lift(b, k)
     if k in FSORT:
         if op == 'floordiv' or op == 'mod':
@@ -1109,6 +1145,12 @@ class SymArray:
     def mean(self, axis=None, **kw):
         return f_mean(self, axis=axis)
 
+    def cumsum(self, axis=None, dtype=None, **kw):
+        return f_cumsum(self, axis=axis, dtype=dtype)
+
+    def argsort(self, axis=-1, **kw):
+        return f_argsort(self, axis=axis)
+
     def argmin(self, axis=None, **kw):
         return FUNCS['argmin'](self, axis=axis)
 
@@ -1613,6 +1655,46 @@ def f_cumsum(a, axis=None, dtype=None, **kw):
     return SymArray(np.moveaxis(out, -1, axis), k)
 
 
+def f_argwhere(a):
+    """indices of the non-zero elements: data-dependent shape -> the mask is concretised (forks per element)"""
+    a = as_symarray(a)
+    m = a if a.kind == 'b' else (a != 0)
+    return np.argwhere(concretize_mask(m)) if not m.is_concrete() else np.argwhere(m._a.astype(bool))
+
+
+def f_diff(a, n=1, axis=-1, **kw):
+    a = as_symarray(a)
+    if n != 1:
+        raise Unsupported('np.diff n != 1')
+    t = np.moveaxis(a._a, axis, -1)
+    k = a.kind if a.kind != 'b' else 'i8'
+    out = _elt(lambda x, y: binop('sub', cast(x, k), cast(y, k)), t[..., 1:], t[..., :-1])
+    return SymArray(np.moveaxis(out, -1, axis), result_kind(out, k) if out.size else k)
+
+
+def f_nanquantile(a, q, axis=None, **kw):
+    if q in (0, 0.0):
+        return _nanext('min')(a, axis=axis)
+    if q in (1, 1.0):
+        return _nanext('max')(a, axis=axis)
+    raise Unsupported('nanquantile with q not in {0, 1}')
+
+
+def f_nanmean(a, axis=None, **kw):
+    a = as_symarray(a)
+
+    def op(vals):
+        tot = None; cnt = None
+        for v in vals:
+            isn = isnan(v)
+            tv = ite(isn, cast(0, a.kind), v)
+            cv_ = ite(isn, 0, 1) if isinstance(isn, Sym) else (0 if isn else 1)
+            tot = tv if tot is None else binop('add', tot, tv)
+            cnt = cv_ if cnt is None else binop('add', cnt, cv_)
+        return binop('truediv', tot, cnt)
+    return _reduce(op, a, axis)
+
+
 def _shape_fn(npf):
     def f(a, *args, **kw):
         a = as_symarray(a)
@@ -1703,7 +1785,7 @@ FUNCS = {'amax': f_max, 'max': f_max, 'amin': f_min, 'min': f_min, 'nanmin': _na
          'argmin': f_argext(False), 'argmax': f_argext(True), 'nanargmin': f_argext(False, True), 'nanargmax': f_argext(True, True),
          'where': f_where, 'nonzero': lambda a: f_where(a), 'clip': f_clip, 'sort': f_sort, 'argsort': f_argsort,
          'median': lambda a, axis=None, **k: f_median(a, axis, False), 'nanmedian': lambda a, axis=None, **k: f_median(a, axis, True),
-         'cumsum': f_cumsum, 'nancumsum': lambda a, axis=None, **k: f_cumsum(SymArray(_elt(lambda e: ite(isnan(e), cast(0, as_symarray(a).kind), e), as_symarray(a)._a), as_symarray(a).kind), axis=axis, **k), 'copy': lambda a, **k: a.copy(), 'full_like': f_full_like,
+         'argwhere': f_argwhere, 'diff': f_diff, 'nanquantile': f_nanquantile, 'nanmean': f_nanmean, 'cumsum': f_cumsum, 'nancumsum': lambda a, axis=None, **k: f_cumsum(SymArray(_elt(lambda e: ite(isnan(e), cast(0, as_symarray(a).kind), e), as_symarray(a)._a), as_symarray(a).kind), axis=axis, **k), 'copy': lambda a, **k: a.copy(), 'full_like': f_full_like,
          'zeros_like': lambda a, dtype=None, **k: f_full_like(a, 0, dtype), 'ones_like': lambda a, dtype=None, **k: f_full_like(a, 1, dtype),
          'empty_like': lambda a, dtype=None, **k: f_full_like(a, 0, dtype),
          'nan_to_num': f_nan_to_num, 'isin': f_isin, 'count_nonzero': f_count_nonzero, 'array_equal': f_array_equal, 'pad': f_pad,
@@ -1857,6 +1939,16 @@ class NPProxy:
 
     def copy(self, x, **k):
         return x.copy() if isinstance(x, SymArray) else np.copy(x)
+
+    def repeat(self, a, repeats, axis=None):
+        """always a SymArray (kernels store symbolic values into the repeated array afterwards)"""
+        if isinstance(a, Sym):
+            o = np.empty(int(repeats), dtype=object); o[...] = a
+            return SymArray(o, a.k)
+        if isinstance(a, SymArray):
+            return SymArray(np.repeat(a._a, repeats, axis=axis), a.kind)
+        r = np.repeat(a, repeats, axis=axis)
+        return SymArray(r, kind_of_dtype(r.dtype)) if r.dtype != object else SymArray(r, result_kind(r))
 
     def float32(self, x=0):
         return cast(x, 'f4') if isinstance(x, Sym) else np.float32(x)
